@@ -138,6 +138,12 @@ Definition xwf (c : xcase) : bool :=
       wf_tab t && negb (is_some (fvk_t k)) && ookb FVK_SAPLING_LEN (fvk_s k) && ookb FVK_ORCHARD_LEN (fvk_o k)
       && nt_unknown_ok (fvk_unknown k)
       && match o with Ok l => forallb (fun it => is_bytes (snd it)) l | _ => true end
+  | XUaNs t items o =>
+      xtab_ok t && addr_items_ok items
+      && match o with
+         | Ok (a, re) => wf_uaddr a && forallb (fun it => is_bytes (snd it)) re
+         | _ => true
+         end
   end.
 
 Definition wf_case (c : case) : bool :=
